@@ -74,6 +74,7 @@ class Runtime:
         self.messages = []
         self.par_calls = 0
         self.fault = None
+        self.active_iter = None
 
     def stat(self, k, n=1):
         self.stats[k] = self.stats.get(k, 0) + n
@@ -184,6 +185,8 @@ class VIter:
         self.done = False
         self.seq = 0
         self.rt.stat('imap_calls')
+        self.rt.active_iter = self
+        self.in_pull = False
 
     def __iter__(self):
         return self
@@ -242,6 +245,8 @@ class VIter:
                 rt.transitions.add(hash(rt.prev_state + (sk, )))
             if not ev:
                 rt.prev_state = (sk, 'END')
+                if rt.active_iter is self:
+                    rt.active_iter = None
                 raise StopIteration
             tag = ('vp', len(self.Q), len(self.R), len(self.O), self.done,
                    len(ev))
@@ -298,6 +303,14 @@ class VIter:
                        'seq': seq})
 
     def pull(self):
+        rt = self.rt
+        self.in_pull = True
+        try:
+            self._pull()
+        finally:
+            self.in_pull = False
+
+    def _pull(self):
         rt = self.rt
         try:
             t = next(self.it)
@@ -670,6 +683,49 @@ def install():
             return reduce
 
         mod.reduce = mk(mod.reduce, name)
+
+    # -- the pool's task-generating thread runs concurrently with the main
+    # thread.  Two places where that matters are modelled as choice points:
+    # (1) while the main thread rebuilds the smtlib tables (between reset and
+    #     refill) the generator of a still active imap call may run;
+    # (2) a TaskGenerator.__next__ that had passed its `stopped` test when
+    #     the main thread ran stop()+update() finishes with the updated fields.
+    from ddsmt import smtlib
+    orig_reset = smtlib.reset_information
+
+    def reset_information():
+        orig_reset()
+        rt = Runtime.current
+        vi = rt.active_iter if rt is not None else None
+        if vi is not None and not vi.in_pull and not vi.done and \
+                rt.worker is None:
+            c = rt.choose(('preempt-reset', ), 3, 0, 'sched')
+            for _ in range(c):
+                rt.stat('producer_steps_during_table_rebuild')
+                vi.pull()
+
+    smtlib.reset_information = reset_information
+
+    orig_update = strategy_ddmin.TaskGenerator.update
+
+    def tg_update(self, exprs):
+        res = orig_update(self, exprs)
+        rt = Runtime.current
+        vi = rt.active_iter if rt is not None else None
+        if vi is not None and vi.it is self and self.stopped and \
+                not vi.in_pull and self.index < len(self.subsets):
+            c = rt.choose(('late-next', ), 2, 0, 'sched')
+            if c:
+                rt.stat('task_built_across_stop_and_update')
+                self.stopped = False
+                try:
+                    vi.pull()
+                finally:
+                    self.stopped = True
+                    vi.done = False
+        return res
+
+    strategy_ddmin.TaskGenerator.update = tg_update
 
     # -- per-worker pid for temp file names
     class OsProxy:
